@@ -118,15 +118,18 @@ env_proof! {
         assert!(new_id == ChunkId(old_end), "new chunk id is not the old chunk's end");
         assert!(rl.wal.open.chunk.global_start() == old_end);
         assert!(rl.wal.open.chunk.records_count() == 1, "new chunk does not start with exactly the state record");
-        // returned segment: the head State record of the new chunk
-        assert!(seg.offset().0 == old_end);
+        // returned segment: the vote record itself, the last record of the
+        // chunk that was just closed (before the C11 fix in /repo the head
+        // snapshot of the new chunk was reported instead)
+        assert!(seg.offset().0 + *seg.size() == old_end, "the segment returned by the write that filled the chunk is not where its record is");
+        assert!(seg.offset().0 == c.chunk.global_offsets[1], "the segment returned by the write that filled the chunk does not start at its record");
         assert!(rl.on_disk_size() == rl.wal.open.chunk.global_end() - old_id.0);
         // the new file exists in the ghost directory under that id and its
         // head record decodes to the state at rotation
         let slot = gfs::find_chunk(old_end);
         assert!(slot.is_some(), "no file created for the new chunk id");
         let f = &gfs::fs().files[slot.unwrap()];
-        assert!(f.exists && f.len == *seg.size(), "head record not written to the new file");
+        assert!(f.exists && f.len == rl.wal.open.chunk.global_end() - old_end && f.len > 0, "head record not written to the new file");
         // worker hand-off: tail Write of the old chunk, then AppendFile
         assert!(crate::raft_log::wal::kani_h_a_wal::queue_sent(&rl.wal) == 2, "rotation must queue the old tail and the new file");
         kani::cover!(true, "rotation happened");
